@@ -220,8 +220,22 @@ def mbLine (d : D) (toks : List String) (raw : String) : IO D := do
         | ["alarm", n] => mbFeed d i (.alarm n.toNat!) "alarm"
         | ["signal", "14"] => mbFeed d i .sigAlarm "sigAlarm"
         | _ :: "flock" :: r =>
-          if r.contains "-1" then mbFeed { d with c := setD c i (fun x => { x with sawLockFault := true }) } i (.flock false flen) "flock!"
-          else mbFeed d i (.flock true flen) "flock"
+          if r.contains "-1" then mbFeed { d with c := setD c i (fun x => { x with sawLockFault := true }) } i (.flock false) "flock!"
+          else mbFeed d i (.flock true) "flock"
+        -- the implementation's own lseek results: seek_end (whence 2) must return the length the file has now
+        -- (checked by sysStep against the model's file, which the write offsets and the final file tie to the real one),
+        -- seek_cur (whence 1) the same offset; both must come after the lock
+        | ["lseek", fd, "0", "2", "->", r] =>
+          if fd != dl.fd then return d else
+          match r.toNat? with
+          | some n => mbFeed d i (.seekEnd n) "seekEnd"
+          | none => disagree d s!"seek_end failed: {r}"
+        | ["lseek", fd, "0", "1", "->", r] =>
+          if fd != dl.fd then return d else
+          match r.toNat? with
+          | some n => mbFeed d i (.seekCur n) "seekCur"
+          | none => disagree d s!"seek_cur failed: {r}"
+        | "lseek" :: fd :: _ => if fd != dl.fd then return d else disagree d s!"unexpected lseek on the mbox descriptor: {raw.trimAscii.toString.take 100}"
         | _ :: "read" :: "0" :: "->" :: r :: more =>
           if r == "-1" then mbFeed d i (.readErr (errOf more == "e4")) (if errOf more == "e4" then "readEINTR" else "read!")
           else mbFeed d i (.read r.toNat!) "read"
